@@ -1276,6 +1276,8 @@ func (l *Lexer) quotedIdentifier(invalidMode mode, tokenType token.Type, untermi
 			lexemeBuff.WriteRune(char)
 			continue
 		}
+		// position of the backslash (a single byte on the current line)
+		escapeCursor, escapeColumn, escapeLine := l.cursor-1, l.column-1, l.line
 
 		char, ok = l.advanceChar()
 		if !ok {
@@ -1343,13 +1345,12 @@ func (l *Lexer) quotedIdentifier(invalidMode mode, tokenType token.Type, untermi
 				return l.lexError(invalidHexEscapeError)
 			}
 			lexemeBuff.WriteByte(byte(value))
-		case '\n':
-			l.incrementLine()
-			fallthrough
 		default:
 			l.pushMode(invalidMode)
 			l.pushMode(invalidEscapeMode)
-			l.backupChars(2)
+			// rewind to the backslash: the escaped character
+			// may be a line break or take more than one byte
+			l.cursor, l.column, l.line = escapeCursor, escapeColumn, escapeLine
 			return l.tokenWithValue(tokenType, lexemeBuff.String())
 		}
 	}
@@ -1542,7 +1543,7 @@ func (l *Lexer) scanInvalidEscape() *token.Token {
 	char, _ := l.advanceChar()
 	lexemeBuff.WriteRune(char)
 
-	char, _ = l.advanceChar()
+	char, _ = l.advanceCharCountingLines()
 	lexemeBuff.WriteRune(char)
 
 	return l.lexError(fmt.Sprintf("invalid escape sequence `%s` in string literal", lexemeBuff.String()))
@@ -1583,6 +1584,8 @@ func (l *Lexer) scanStringLiteralContent() *token.Token {
 			lexemeBuff.WriteRune(char)
 			continue
 		}
+		// position of the backslash (a single byte on the current line)
+		escapeCursor, escapeColumn, escapeLine := l.cursor-1, l.column-1, l.line
 
 		char, ok = l.advanceChar()
 		if !ok {
@@ -1647,12 +1650,11 @@ func (l *Lexer) scanStringLiteralContent() *token.Token {
 				return l.lexError(invalidHexEscapeError)
 			}
 			lexemeBuff.WriteByte(byte(value))
-		case '\n':
-			l.incrementLine()
-			fallthrough
 		default:
 			l.pushMode(invalidEscapeMode)
-			l.backupChars(2)
+			// rewind to the backslash: the escaped character
+			// may be a line break or take more than one byte
+			l.cursor, l.column, l.line = escapeCursor, escapeColumn, escapeLine
 			return l.tokenWithValue(token.STRING_CONTENT, lexemeBuff.String())
 		}
 	}
